@@ -4,10 +4,10 @@ CONSTANTS
   UseEscapedPath = TRUE
   MaxOps = 2
   MaxSegs = 3
-  Bases = {"empty", "/api", "/api/"}
-  TemplateIds = {"a", "ax", "ab", "xb", "axcy", "root", "a/"}
+  Bases = {"empty", "/", "/api", "/api/"}
+  TemplateIds = {"a", "ax", "ab", "xb", "axcy", "root", "a/", "x"}
   OpMethods = {"GET", "POST"}
-  ReqMethods = {"GET", "get", "Post", "PUT"}
-  SegIds = {"a", "b", "c", "api", ":", "a%2Fb", "%25", "..", "empty"}
+  ReqMethods = {"GET", "gEt", "Post", "DELETE"}
+  SegIds = {"a", "b", "c", "api", ":", "a%2Fb", "..", "empty"}
 INVARIANTS PropertyHolds
 CHECK_DEADLOCK FALSE
